@@ -56,6 +56,7 @@ class Entry:
         self.fields: List[Tuple[str, int, Any]] = []
         self.serializer = None
         self.index: Optional[int] = None        # index in the generated Coq registry
+        self.quant: Optional[dict] = None       # parameters of a QuantizedFloat adapter (own obligations)
 
     @property
     def modelled(self):
@@ -230,6 +231,13 @@ def _classify(reg: Registry, e: Entry, ser, se):
             if ok:
                 e.kind, e.shift, e.fields = "bitfield", bool(a._shift), fields
                 return
+        if type(a) is se.QuantizedFloat and type(a._child_spec) is se.SerializablePrimitive \
+                and not isinstance(a.lower, bool):
+            e.quant = {"rmin": int(a._child_spec.min_val), "rmax": int(a._child_spec.max_val), "prim_min": int(a.prim_min),
+                       "lower": float(a.lower), "upper": float(a.upper), "step": float(a.step_mag),
+                       "zero_median": bool(a.zero_median), "adapter": a}
+            e.why_opaque = "quantised float: not in the integer registry; own generated obligations (gen/C09_quant_gen.v)"
+            return
         e.why_opaque = "adapter %s is not an integer adapter of the model" % type(a).__name__
         return
     e.why_opaque = "byte-payload / custom serializer %s" % (getattr(ser, "__name__", type(ser).__name__))
@@ -321,6 +329,118 @@ def emit(reg: Registry, path: str) -> List[dict]:
             out.append("   opaque %s.%s.%s (%s): %s" % (e.key + (e.vtype, e.why_opaque)))
     out.append("*)")
     obls.append({"name": "C09_registry_lossless", "detail": "%d modelled keys" % len(modelled)})
+    txt = "\n".join(out) + "\n"
+    os.makedirs(os.path.dirname(path), exist_ok=True)
+    old = open(path).read() if os.path.exists(path) else None
+    if old != txt:
+        with open(path, "w") as f:
+            f.write(txt)
+    return obls
+
+
+# ------------------------------------------------------------------ quantised-float keys (PrimFloat model of C10)
+
+MASK63 = (1 << 63) - 1
+
+
+def fhex(x: float) -> str:
+    import math
+    if x != x:
+        return "PrimFloat.nan"
+    if x == math.inf:
+        return "PrimFloat.infinity"
+    if x == -math.inf:
+        return "PrimFloat.neg_infinity"
+    h = float(x).hex()
+    return "(-%s)%%float" % h[1:] if h.startswith("-") else "(%s)%%float" % h
+
+
+def chk_key(x: float) -> int:
+    """mirror of Quant/QuantModel.chk_key"""
+    import math
+    if x != x or x in (math.inf, -math.inf) or x == 0.0:
+        mant, e = 0, 0
+    else:
+        m, ex = math.frexp(abs(x))
+        mant, e = int(m * (1 << 53)), ex + 2101
+    neg = x == x and x != -math.inf and math.copysign(1.0, x) < 0
+    return (mant + e * 1000003 + (777767777 if neg else 0)) & MASK63
+
+
+def checksum(values) -> int:
+    acc = 0
+    for i, x in enumerate(values):
+        acc = (acc + (2 * i + 1) * chk_key(x)) & MASK63
+    return acc
+
+
+def quant_entries(reg: Registry):
+    return [e for e in reg.entries if e.quant is not None and not e.inert and e.ty is not None]
+
+
+def emit_quant(reg: Registry, path: str) -> List[dict]:
+    """gen/C09_quant_gen.v: per quantised-float key the adapter's parameters, the agreement of the Coq
+    model's decode with the implementation on EVERY raw (checksum over bit patterns + samples), of its
+    encode on the decoded values of sampled raws and out-of-range floats, and the exhaustive round trip"""
+    qs = quant_entries(reg)
+    out = ["(* GENERATED by harness/translate/c09_registry.py (quantised-float keys) from the live registry; rewritten every run. *)",
+           "From Coq Require Import PrimFloat Uint63 ZArith List Ascii Bool.",
+           "From HV Require Import Subfield.IntAdapters Subfield.QuantField Quant.QuantModel Quant.QuantProofs.",
+           "Import ListNotations.", ""]
+    obls = []
+    insts = {}
+    for e in qs:
+        q = e.quant
+        a = q["adapter"]
+        if id(a) not in insts:
+            i = len(insts)
+            insts[id(a)] = i
+            nm = "quant_%d" % i
+            out.append("Definition %s : quant :=\n  QF {| qf_kind_of := KBase; qf_rmin := (%d)%%Z; qf_rmax := (%d)%%Z; qf_lower := %s; "
+                       "qf_upper := %s; qf_step := %s; qf_zero_median := %s |}." % (
+                           nm, q["prim_min"], q["prim_min"] + (q["rmax"] - q["rmin"]), fhex(q["lower"]), fhex(q["upper"]),
+                           fhex(q["step"]), "true" if q["zero_median"] else "false"))
+            raws = list(range(q["rmin"], q["rmax"] + 1))
+            dec = [a.decode(r, None) for r in raws]
+            n = len(raws)
+            idx = sorted(set([0, 1, 2, n // 2 - 1, n // 2, n // 2 + 1, n - 3, n - 2, n - 1] + list(range(0, n, max(1, n // 64)))))
+            idx = [j for j in idx if 0 <= j < n]
+            out.append("Definition %s_samples : list (Z * float) :=\n  [%s]." % (
+                nm, "; ".join("((%d)%%Z, %s)" % (raws[j], fhex(dec[j])) for j in idx)))
+            out.append("Example C09_%s_decode_agrees : decode_agrees %s %s_samples %d%%uint63 = true.\n"
+                       "Proof. vm_compute. reflexivity. Qed." % (nm, nm, nm, checksum(dec)))
+            span = q["upper"] - q["lower"]
+            floats = [dec[j] for j in idx] + [q["lower"] - span, q["upper"] + span, q["lower"], q["upper"], 0.0, -0.0]
+            cases = []
+            for x in floats:
+                try:
+                    r = a.encode(x, None)
+                    r = int(r) if q["rmin"] <= int(r) <= q["rmax"] else None
+                except Exception:
+                    r = None
+                cases.append("(%s, %s)" % (fhex(x), "None" if r is None else "(Some (%d)%%Z)" % r))
+            out.append("Definition %s_encode_cases : list (float * option Z) :=\n  [%s]." % (nm, "; ".join(cases)))
+            out.append("Example C09_%s_encode_agrees : encode_agrees %s %s_encode_cases = true.\n"
+                       "Proof. vm_compute. reflexivity. Qed." % (nm, nm, nm))
+            obls.append({"name": "C09_%s_decode_agrees" % nm, "detail": "model decode == implementation decode on all %d raws" % n})
+            obls.append({"name": "C09_%s_encode_agrees" % nm, "detail": "%d encode cases" % len(cases)})
+    out.append("")
+    for k, e in enumerate(qs):
+        nm = "quant_%d" % insts[id(e.quant["adapter"])]
+        out.append("Definition qentry_%d : qentry := {| qe_msg := %s; qe_block := %s; qe_var := %s; qe_q := %s; qe_ty := %s |}." % (
+            k, coq_str(e.key[0]), coq_str(e.key[1]), coq_str(e.key[2]), nm, e.ty))
+        name = "C09_quant_ok_%d" % k
+        out.append("Example %s : quant_field_ok (qe_q qentry_%d) (qe_ty qentry_%d) = true.\nProof. vm_compute. reflexivity. Qed." % (name, k, k))
+        obls.append({"name": "%s[%s.%s.%s:%s]" % ((name,) + e.key + (e.ty,)),
+                     "detail": "every raw of the wire type survives decode-then-encode (exhaustive, PrimFloat model)"})
+    out.append("")
+    out.append("Definition quant_registry : list qentry := [%s]." % "; ".join("qentry_%d" % k for k in range(len(qs))))
+    out.append("Theorem C09_quant_registry_ok : quant_registry_ok quant_registry = true.\nProof. vm_compute. reflexivity. Qed.")
+    out.append("Theorem C09_quant_registry_lossless : forall e, In e quant_registry ->\n"
+               "  forall z, in_wire_range (qe_ty e) z -> f2q (qe_q e) (q2f (qe_q e) z) = Some z.\n"
+               "Proof. exact (quant_registry_lossless quant_registry C09_quant_registry_ok). Qed.")
+    out.append("Print Assumptions C09_quant_registry_lossless.")
+    obls.append({"name": "C09_quant_registry_lossless", "detail": "%d quantised-float keys" % len(qs)})
     txt = "\n".join(out) + "\n"
     os.makedirs(os.path.dirname(path), exist_ok=True)
     old = open(path).read() if os.path.exists(path) else None
